@@ -144,13 +144,17 @@ def mget (h : Hdr) (k : String) : Bytes :=
   | some ck => h.get ck
   | none => []
 
+/-- the value the group/artifact lists look at: a `Bundle-SymbolicName` is cut at
+    its first `;` (directives) -/
+def usableValue (h : Hdr) (k : String) : Bytes :=
+  if k == "Bundle-SymbolicName" then beforeSemi (mget h k) else mget h k
+
+def usable (h : Hdr) (k : String) : Bool := !(usableValue h k).isEmpty && !hasSpace (usableValue h k)
+
 /-- first key of the list whose value is not empty and has no space -/
 def firstUsable (h : Hdr) : List String → Bytes
   | [] => []
-  | k :: ks =>
-    let v := mget h k
-    let v := if k == "Bundle-SymbolicName" then beforeSemi v else v
-    if !v.isEmpty && !hasSpace v then v else firstUsable h ks
+  | k :: ks => if usable h k then usableValue h k else firstUsable h ks
 
 def firstNonEmpty (h : Hdr) : List String → Bytes
   | [] => []
@@ -215,6 +219,12 @@ def versionAt : Bytes → Option Bytes
   | [] => none
   | c :: cs => if isDigitB c then (versionBefore cs).map (c :: ·) else none
 
+/-- a split right after `c`: `cs` starts with the dash and a version follows it -/
+def dashHere (c : Nat) (cs : Bytes) : Option (Bytes × Bytes) :=
+  match cs with
+  | 45 :: rest => (versionAt rest).map fun v => ([c], v)
+  | _ => none
+
 /-- within one run of graph characters: the split at the LAST usable dash
     (greedy `[[:graph:]]+`), with at least one character before it -/
 def splitRun : Bytes → Option (Bytes × Bytes)
@@ -222,10 +232,7 @@ def splitRun : Bytes → Option (Bytes × Bytes)
   | c :: cs =>
     match splitRun cs with
     | some (n, v) => some (c :: n, v)
-    | none =>
-      match cs with
-      | 45 :: rest => (versionAt rest).map fun v => ([c], v)
-      | _ => none
+    | none => dashHere c cs
 
 /-- the runs of graph characters of the base name, in order (`cur` = the run
     being read, reversed) -/
